@@ -31,8 +31,8 @@ VERIF = os.path.dirname(os.path.dirname(os.path.abspath(__file__)))
 
 FILES = {
     # file: (weight, checks that exercise it)
-    'circus/watcher.py': (10, ['C01', 'C02', 'C04', 'C09', 'C05', 'C14', 'C17', 'C03', 'C19', 'C13', 'C10', 'C11', 'C12']),
-    'circus/arbiter.py': (8, ['C10', 'C08', 'C12', 'C15', 'C19', 'C02', 'C09', 'C07', 'C01', 'C05', 'C11']),
+    'circus/watcher.py': (10, ['C02', 'C05', 'C14', 'C17', 'C09', 'C04', 'C13', 'C19', 'C01', 'C10', 'C11', 'C12', 'C08', 'C07', 'C03']),
+    'circus/arbiter.py': (8, ['C10', 'C08', 'C02', 'C19', 'C05', 'C11', 'C07', 'C09', 'C12', 'C15', 'C01', 'C04']),
     'circus/controller.py': (3, ['C06', 'C10', 'C11', 'C05', 'C08']),
     'circus/process.py': (4, ['C13', 'C07', 'C03', 'C18', 'C04', 'C17']),
     'circus/util.py': (4, ['C13', 'C16', 'C18', 'C10', 'C06', 'C11']),
